@@ -67,8 +67,8 @@ pub fn generate(g: &mut G, index: u64) -> Scenario {
         if let Some(s) = fam.slots[c].of_kind(&[HKind::Addr]).first().copied() {
             let op = match g.below(3) {
                 0 => Op::Stop { h: s },
-                1 => Op::Send { h: s, id: g.id(), work: vec![Work::CtxStop] },
-                _ => Op::Call { h: s, id: g.id(), work: vec![Work::CtxStop] },
+                1 => Op::Send { h: s, id: g.id(), work: ctx_stop_work(g) },
+                _ => Op::Call { h: s, id: g.id(), work: ctx_stop_work(g) },
             };
             fam.insert(c, at, vec![op]);
         } else if let Some(s) = fam.slots[c].of_kind(&[HKind::WeakAddr]).first().copied() {
